@@ -3,6 +3,7 @@
 C01.a safety net dominates every emission      (E7, CFG)
 C01.b opcode -> operator -> opcode round trip  (E1, template strings)   [see roundtrip.py]
 C01.c stack-effect table vs EVM reference      (table comparison)
+C01.d load/hash unification checks every intervening access
 """
 import ast
 
